@@ -15,10 +15,24 @@ def find_minimum_indents(source_code):
     return result
 
 
+def split_lines(source_code, keepends=False):
+    """Like ``str.splitlines()``, but only at ``\\n``
+
+    A form feed or U+2028 in a string literal or in a comment is no line
+    break for Python.
+    """
+    lines = source_code.split("\n")
+    if keepends:
+        lines = [line + "\n" for line in lines[:-1]] + lines[-1:]
+    if lines[-1] == "":
+        del lines[-1]
+    return lines
+
+
 def indent_lines(source_code, amount):
     if amount == 0:
         return source_code
-    lines = source_code.splitlines(True)
+    lines = split_lines(source_code, True)
     result = []
     for line in lines:
         if line.strip() == "":
